@@ -27,9 +27,12 @@ theorem skipLoop_found (inp : List RawItem) : ∀ (p p' : Pump) (rest : List Raw
         intro q hq hs
         by_cases hd : ∃ b, raw = .docStart b
         · obtain ⟨b, rfl⟩ := hd
-          simp [skipLoop] at h
-          obtain ⟨rfl, rfl⟩ := h
-          exact ⟨rfl, rfl, rfl, rfl, rfl, rfl, rfl, [], b, loc, rfl, by simp⟩
+          simp only [skipLoop] at h
+          split at h
+          · simp at h
+          · simp at h
+            obtain ⟨rfl, rfl⟩ := h
+            exact ⟨rfl, rfl, rfl, rfl, rfl, rfl, rfl, [], b, loc, rfl, by simp⟩
         · obtain ⟨h1, h2, h3, h4, h5, h6, h7, pre, b, l, he, hpre⟩ := ih q p' rest hs
           refine ⟨h1.trans hq, h2, h3, h4, h5, h6, h7, .ev raw loc :: pre, b, l, by rw [he]; rfl, ?_⟩
           intro x hx b' l'
@@ -40,9 +43,12 @@ theorem skipLoop_found (inp : List RawItem) : ∀ (p p' : Pump) (rest : List Raw
           · exact hpre x hx b' l'
       cases raw with
       | docStart b =>
-        simp [skipLoop] at h
-        obtain ⟨rfl, rfl⟩ := h
-        exact ⟨rfl, rfl, rfl, rfl, rfl, rfl, rfl, [], b, loc, rfl, by simp⟩
+        simp only [skipLoop] at h
+        split at h
+        · simp at h
+        · simp at h
+          obtain ⟨rfl, rfl⟩ := h
+          exact ⟨rfl, rfl, rfl, rfl, rfl, rfl, rfl, [], b, loc, rfl, by simp⟩
       | streamEnd => simp [skipLoop] at h
       | docEnd => (simp only [skipLoop] at h; exact hcons _ (by exact rfl) h)
       | streamStart => (simp only [skipLoop] at h; exact hcons _ (by exact rfl) h)
@@ -97,5 +103,6 @@ theorem skipLoop_length (inp : List RawItem) : ∀ (p : Pump),
       all_goals first
         | exact ⟨Nat.le_succ _, fun _ => Nat.lt_succ_self _⟩
         | exact ⟨Nat.le_succ_of_le (ih _).1, fun h => Nat.lt_succ_of_lt ((ih _).2 h)⟩
+        | (split <;> exact ⟨Nat.le_succ _, fun _ => Nat.lt_succ_self _⟩)
 
 end SaphyrVerif.Lemmas.C11
